@@ -425,7 +425,9 @@ RETCODE adfFileFlush ( struct AdfFile * const file )
 
     RETCODE rc = RC_OK;
 
-    if (file->currentExt) {
+    /* the extension block buffer exists from the open on; it holds a block only
+       once one has been read or created (headerKey != 0) */
+    if ( file->currentExt && file->currentExt->headerKey != 0 ) {
         rc = adfWriteFileExtBlock ( file->volume,
                                     file->currentExt->headerKey,
                                     file->currentExt );
